@@ -144,7 +144,8 @@ func xlatePool(args []string) error {
 			}
 			prep[name] = facts
 		case isMethod && name == "snapshotRuleBuilder":
-			ok := len(body) == 4 && strings.ReplaceAll(x.src(body[0]), " ", "") == "gp.updateLock.Lock()" && strings.ReplaceAll(x.src(body[1]), " ", "") == "defergp.updateLock.Unlock()" &&
+			ok := len(body) == 4 && ((strings.ReplaceAll(x.src(body[0]), " ", "") == "gp.updateLock.Lock()" && strings.ReplaceAll(x.src(body[1]), " ", "") == "defergp.updateLock.Unlock()") ||
+				(strings.ReplaceAll(x.src(body[0]), " ", "") == "gp.stateLock.RLock()" && strings.ReplaceAll(x.src(body[1]), " ", "") == "defergp.stateLock.RUnlock()")) &&
 				strings.ReplaceAll(x.src(body[2]), " ", "") == "src:=gp.rbSlice[tag]" && strings.ReplaceAll(x.src(body[3]), " ", "") == "return&builder.RuleBuilder{Kc:src.Kc,Dc:src.Dc}"
 			if ok {
 				prep["snapshotRuleBuilder"] = []string{"locked-one-read"}
